@@ -126,7 +126,7 @@ def append_shape(repo):
     rest = fb[wm.end():]
     notes = []
     # the String the frame is printed into: `let mut line = serde_json::to_string(<ev>)`
-    lm = re.search(r"let\s+mut\s+(\w+)\s*=\s*serde_json::to_string\(\s*" + re.escape(ev) + r"\s*\)", rest)
+    lm = re.search(r"let\s+(?:mut\s+)?(\w+)\s*=\s*serde_json::to_string\(\s*" + re.escape(ev) + r"\s*\)", rest)
     line = lm.group(1) if lm else None
     events = []  # (position, shape)
     for mm in re.finditer(r"serde_json::to_writer(?:_pretty)?\s*\(", rest):
